@@ -31,7 +31,13 @@ func (f LeveldbDiskStorage) Create(tbl *btapb.Table) Rows {
 	// Destroy rows left behind by an earlier table of this name before the new definition is persisted;
 	// otherwise dying between the two steps brings the old rows back under the new table.
 	_ = os.RemoveAll(path)
-	f.SetTableMeta(tbl)
+	if err := f.setTableMeta(tbl); err != nil {
+		// A table whose definition cannot be stored (e.g. a table id whose ".table.proto" file name is too long
+		// for the file system) would be served until the next restart and then be gone: refuse to create it.
+		// CreateTable turns the panic into an error status, like a failure to open the table's database.
+		_ = os.RemoveAll(path)
+		panic(fmt.Errorf("cannot persist the table definition: %w", err))
+	}
 	verifPoint("disk.create.afterMeta", []byte(tbl.Name))
 	newFunc := func(nuke bool) *leveldb.DB {
 		return newDiskDb(path, nuke)
@@ -88,6 +94,11 @@ func (f LeveldbDiskStorage) Open(tbl *btapb.Table) Rows {
 
 // SetTableMeta persists metadata about a table.
 func (f LeveldbDiskStorage) SetTableMeta(tbl *btapb.Table) {
+	_ = f.setTableMeta(tbl)
+}
+
+// setTableMeta is SetTableMeta with the error (already logged) returned to the caller.
+func (f LeveldbDiskStorage) setTableMeta(tbl *btapb.Table) error {
 	path := filepath.Join(f.Root, tbl.Name)
 	verifPoint("disk.meta.enter", []byte(tbl.Name))
 	if err := os.MkdirAll(path, 0777); err != nil {
@@ -103,15 +114,16 @@ func (f LeveldbDiskStorage) SetTableMeta(tbl *btapb.Table) {
 	tmpPath := filepath.Join(path + ".table.proto.tmp")
 	if err := os.WriteFile(tmpPath, buf, 0666); err != nil {
 		f.errLog(err, "ioutil.WriteFile %q", tmpPath)
-		return
+		return err
 	}
 	verifPoint("disk.meta.afterTmp", []byte(tbl.Name))
 
 	if err := os.Rename(tmpPath, outPath); err != nil {
 		f.errLog(err, "os.Rename %q -> %q", tmpPath, outPath)
-		return
+		return err
 	}
 	verifPoint("disk.meta.afterRename", []byte(tbl.Name))
+	return nil
 }
 
 // DeleteTableMeta removes the persisted metadata of a deleted table, so that GetTables no longer reports it.
